@@ -4,89 +4,101 @@ import (
 	"fmt"
 	"io/ioutil"
 	"os"
+	"runtime"
+	"strings"
 
+	"github.com/meshplus/bitxhub-kit/types"
 	"github.com/meshplus/bitxhub-model/pb"
 	"github.com/meshplus/bitxhub/verif/harness"
-	"github.com/meshplus/bitxhub/verif/model"
 )
 
 func init() { workloads["smoke"] = smoke }
 
-// smoke is a scratch probe (not part of any check): service ids containing the separators of the timeout list.
+// smoke is a scratch probe (not part of any check): does a value written by an XVM contract stay what it was
+// when later calls of the same contract reuse the instance's memory?
 func smoke(args []string) int {
 	dir, _ := ioutil.TempDir("", "smoke.")
 	defer os.RemoveAll(dir)
-	if err := buildHubFixture(dir, harness.Options{}); err != nil {
-		fmt.Println(err)
-		return 1
-	}
 	w, err := harness.OpenWorld(dir, harness.Options{})
 	if err != nil {
 		fmt.Println(err)
 		return 1
 	}
 	defer w.R.Close()
-	for _, svc := range []string{"s-x", "s,x"} {
-		err := w.RegisterService(harness.ChainAdmin(harness.ChainA), harness.ChainA, svc, true, "")
-		fmt.Printf("RegisterService chainA:%s: %v\n", svc, err)
+	if err := w.BuildStandard(); err != nil {
+		fmt.Println(err)
+		return 1
 	}
-	odd := hubID + ":chainX:mint,burn,swap"
-	if len(args) > 0 {
-		odd = args[0]
+	code, err := ioutil.ReadFile("/repo/pkg/vm/wasm/testdata/optimized.wasm")
+	if err != nil {
+		fmt.Println(err)
+		return 1
 	}
-	a1, b1, c1 := harness.FullID(harness.ChainA, "s1"), harness.FullID(harness.ChainB, "s1"), harness.FullID(harness.ChainC, "s1")
-	res, err := w.Exec(w.IBTPTx(harness.User(0), harness.MkIBTP(a1, odd, 1, pb.IBTP_INTERCHAIN, 2), []byte("p")),
-		w.IBTPTx(harness.User(0), harness.MkIBTP(b1, c1, 1, pb.IBTP_INTERCHAIN, 2), []byte("p")))
+	k := harness.User(0)
+	res, err := w.Exec(harness.XVMDeployTx(k, w.Nonce(k.Addr), w.Stamp(), code))
+	if err != nil || res.Receipts[0].Status != pb.Receipt_SUCCESS {
+		fmt.Println("deploy:", err, string(res.Receipts[0].Ret))
+		return 1
+	}
+	addr := types.NewAddress(res.Receipts[0].Ret)
+	set := func(key, val string) pb.Transaction {
+		return harness.XVMInvokeTx(k, w.Nonce(k.Addr), w.Stamp(), addr, "state_test_set", pb.Bytes([]byte(key)), pb.Bytes([]byte(val)))
+	}
+	res, err = w.Exec(set("alice", "111"), set("bob", "222222"), set("carol", "3"), set("alice2", "4444"))
 	if err != nil {
 		fmt.Println("exec:", err)
 		return 1
 	}
 	for i, rc := range res.Receipts {
-		fmt.Printf("h%d tx%d: %v %.100s\n", res.Height, i, rc.Status, string(rc.Ret))
+		fmt.Printf("set tx%d: %v %q\n", i, rc.Status, string(rc.Ret))
 	}
-	for k := 0; k < 3; k++ {
-		res, err := w.Exec(w.Transfer(harness.User(1), harness.User(2).Addr, "1"))
+	for _, key := range []string{"alice", "bob", "carol", "alice2"} {
+		res, err := w.Exec(harness.XVMInvokeTx(k, w.Nonce(k.Addr), w.Stamp(), addr, "state_test_get", pb.Bytes([]byte(key))))
 		if err != nil {
 			fmt.Println("exec:", err)
 			return 1
 		}
-		fmt.Printf("h%d timeout notifications %v; status odd=%s normal=%s\n", res.Height, res.Meta.TimeoutCounter, model.StName[w.Status(a1+"-"+odd+"-1")], model.StName[w.Status(b1+"-"+c1+"-1")])
+		fmt.Printf("get %s: %v %q\n", key, res.Receipts[0].Status, string(res.Receipts[0].Ret))
 	}
-	// a group whose source service id contains '-'
-	src := harness.FullID(harness.ChainA, "s-x")
-	keys := []string{b1, c1}
-	vals := []uint64{1, 1}
+	// many writes in one block while the collector runs all the time
+	stop := make(chan struct{})
+	go func() {
+		for {
+			select {
+			case <-stop:
+				return
+			default:
+				runtime.GC()
+			}
+		}
+	}()
 	var txs []pb.Transaction
-	for i := range keys {
-		ib := harness.MkIBTP(src, keys[i], 1, pb.IBTP_INTERCHAIN, 2)
-		ib.Group = &pb.StringUint64Map{Keys: keys, Vals: vals}
-		txs = append(txs, w.IBTPTx(harness.User(0), ib, []byte("p")))
+	for i := 0; i < 300; i++ {
+		txs = append(txs, set(fmt.Sprintf("key-%03d", i), fmt.Sprintf("value-%03d-%s", i, strings.Repeat("x", i%17))))
 	}
-	txs = append(txs, w.IBTPTx(harness.User(0), harness.MkIBTP(b1, c1, 2, pb.IBTP_INTERCHAIN, 2), []byte("p")))
 	res, err = w.Exec(txs...)
+	close(stop)
 	if err != nil {
 		fmt.Println("exec:", err)
 		return 1
 	}
-	for i, rc := range res.Receipts {
-		fmt.Printf("h%d tx%d: %v %.100s\n", res.Height, i, rc.Status, string(rc.Ret))
-	}
-	// one child succeeds
-	res, err = w.Exec(w.IBTPTx(harness.User(0), func() *pb.IBTP {
-		ib := harness.MkIBTP(src, b1, 1, pb.IBTP_RECEIPT_SUCCESS, 0)
-		ib.Group = &pb.StringUint64Map{Keys: keys, Vals: vals}
-		return ib
-	}(), []byte("p")))
-	if err == nil {
-		fmt.Printf("h%d receipt: %v %.100s; notifications %v\n", res.Height, res.Receipts[0].Status, string(res.Receipts[0].Ret), res.Meta.TimeoutCounter)
-	}
-	for k := 0; k < 2; k++ {
-		res, err := w.Exec(w.Transfer(harness.User(1), harness.User(2).Addr, "1"))
-		if err != nil {
-			fmt.Println("exec:", err)
-			return 1
+	bad := 0
+	dd := w.R.DumpState()
+	for i := 0; i < 300; i++ {
+		want := fmt.Sprintf("value-%03d-%s", i, strings.Repeat("x", i%17))
+		if got := string(dd[string(addr.Bytes())+fmt.Sprintf("key-%03d", i)]); got != want {
+			bad++
+			if bad < 5 {
+				fmt.Printf("key-%03d stored %q, written %q\n", i, got, want)
+			}
 		}
-		fmt.Printf("h%d timeout notifications %v; multi %v; status child=%s normal=%s\n", res.Height, res.Meta.TimeoutCounter, res.Meta.MultiTxCounter, model.StName[w.Status(src+"-"+b1+"-1")], model.StName[w.Status(b1+"-"+c1+"-2")])
+	}
+	fmt.Println("values that differ from what was written:", bad)
+	d := w.R.DumpState()
+	for _, kk := range harness.SortedKeys(d) {
+		if len(kk) > 20 && kk[:20] == string(addr.Bytes()) {
+			fmt.Printf("stored %q = %q\n", kk[20:], string(d[kk]))
+		}
 	}
 	return 0
 }
